@@ -45,6 +45,16 @@ def read_pro(pro: bytes) -> dict[str, Any]:
         if rtype != 1:
             continue
         xml = rec.decode('utf-16-le')
+        # a licence client parses the header as XML: it has to be well formed, and the licence URL is the element's text
+        try:
+            import xml.etree.ElementTree as ET
+            root = ET.fromstring(xml)
+            out['wf'] = 1
+            la = next((e for e in root.iter() if e.tag.rsplit('}', 1)[-1] == 'LA_URL'), None)
+            out['la_url_xml'] = la.text if la is not None else None
+        except Exception:      # noqa: BLE001
+            out['wf'] = 0
+            out['la_url_xml'] = None
         m = re.search(r'<WRMHEADER[^>]*version="([\d.]+)"', xml)
         out['version'] = m.group(1) if m else ''
         m = re.search(r'<LA_URL>(.*?)</LA_URL>', xml, re.S)
@@ -156,6 +166,8 @@ def main(tier_: str) -> int:
                             got_la = rp['la_url'] or ''
                             # {cfgs} / {kids} expansions are not constrained here: compare the parts around them
                             la_eq = 1 if (got_la == exp_la or ('{cfgs}' in exp_la and got_la.startswith(exp_la.split('{cfgs}')[0]))) else 0
+                            if not rp.get('wf') or (rp.get('la_url_xml') or '') != got_la:
+                                la_eq = 0        # not well-formed XML, or the XML reading of LA_URL differs from the textual one
                             lines.append({'ev': 'pro', 'hv': str(hv), 'version': rp['version'], 'kids': [list(k) for k in want_kids],
                                           'keys': [list(keys[k.hex()].KEY.raw) for k in want_kids], 'la_eq': la_eq,
                                           'pro_kids': rp['kids'], 'pro_checksums': rp['checksums'], 'la_url': la, 'got_la_url': got_la})
